@@ -176,12 +176,14 @@ func ComputeTruth(w *World) *Truth {
 				}
 			}
 		}
-		if whole && r.PayLen > 0 {
+		if n := r.PayLen - r.Cut; whole && n > 0 {
+			// the part of the segment that the capture holds (all of it unless
+			// the snap length cut the frame)
 			c := cov[r.Conn][r.Side]
-			for i := r.DataOff; i < r.DataOff+r.PayLen; i++ {
+			for i := r.DataOff; i < r.DataOff+n; i++ {
 				c[i] = true
 			}
-			segs = append(segs, segCap{r.Conn, r.Side, r.DataOff, r.PayLen})
+			segs = append(segs, segCap{r.Conn, r.Side, r.DataOff, n})
 		}
 	}
 	// fill in the datagram details of the reassemblies from the first fragment
